@@ -30,8 +30,39 @@ def list_doc(rng):
     return [{"$output": True, "k": 1}, {"deep": [{"m": {"$merge": {"$match": {"name": "D0"}, "$path": "t"}}}]}]
 
 
+def skeleton(rng, v):
+    """a partial restatement of v in which containers may be left empty: merging v into it fills the empty ones"""
+    if isinstance(v, dict):
+        if rng.chance(1, 3):
+            return {}
+        return {k: skeleton(rng, x) for k, x in v.items() if rng.chance(2, 3)}
+    if isinstance(v, list):
+        return [] if rng.chance(1, 2) else [rng.pick([9, "own"])]
+    return v if rng.chance(1, 2) else rng.pick([7, "other"])
+
+
+def placeholder_doc(rng):
+    """a $merge / $replace host that restates parts of its target with EMPTY containers as placeholders: evaluation fills them, and
+    must do so in the output's copy only (an evaluator sharing empty containers with the stored tree writes into the parser's state)"""
+    t = rng.pick([{"cfg": {"a": 1}}, {"cfg": {"a": 1, "n": {"b": [1, 2]}}, "l": [1, 2], "e": {}},
+                  {"x": {"y": {"z": {"w": 1}}}, "l": [{"k": 1}]}])
+    host = skeleton(rng, t)
+    if not isinstance(host, dict):
+        host = {}
+    host = dict(host)
+    host["$merge"] = "tmpl"
+    d = {"tmpl": t, "out": host}
+    if rng.chance(1, 3):
+        d["tmpl"] = dict(t, **{"$output": False})
+    if rng.chance(1, 3):
+        d["also"] = [{"$merge": "tmpl.cfg"} if "cfg" in t else {"$merge": "tmpl.x"}, {}]
+    return d
+
+
 def feature_doc(rng):
-    k = rng.below(7)
+    k = rng.below(9)
+    if k >= 7:
+        return placeholder_doc(rng)
     if k == 0:
         return evalgen.repeat_doc(rng)
     if k == 1:
@@ -262,7 +293,9 @@ def file_history_pass(ctx, rng, n, dist):
 
 def gen_doc(r):
     """a document whose evaluation does something (reference, repeat, interpolation, hidden part)"""
-    k = r.below(5)
+    k = r.below(7)
+    if k >= 5:
+        return placeholder_doc(r)
     if k == 0:
         return {"t": {"x": 1, "l": [1]}, "h": {"$merge": "t", "y": 2}}
     if k == 1:
